@@ -23,7 +23,10 @@ type onceState struct {
 	done    bool
 	running bool
 }
-type poolState struct{ items []value }
+type poolState struct {
+	items []value
+	toks  []*int // per item: happens-before token (Put(x) synchronizes before the Get returning x)
+}
 
 // syncState is per-path state of synchronisation objects, keyed by the address of the object.
 type syncState struct {
@@ -70,6 +73,10 @@ func fieldIndex(t types.Type, name string) int {
 
 func mutexLock(fr *frame, p *value, what string) {
 	m := syncSt.mutex(p)
+	if EX.TraceSync {
+		EX.recordSync(m, "L")
+		return
+	}
 	g := curG(fr)
 	if !(m.locked || m.readers > 0) {
 		sched.yield(g, what, m)
@@ -86,6 +93,10 @@ func mutexLock(fr *frame, p *value, what string) {
 
 func mutexUnlock(fr *frame, p *value) {
 	m := syncSt.mutex(p)
+	if EX.TraceSync {
+		EX.recordSync(m, "U")
+		return
+	}
 	sched.yield(curG(fr), "Unlock", m)
 	if !m.locked {
 		panic(targetPanicMsg("fatal error: sync: unlock of unlocked mutex"))
@@ -124,6 +135,10 @@ func initSyncIntrinsics() {
 	// Go's RWMutex: a blocked Lock call excludes new readers from acquiring the lock.
 	e["(*sync.RWMutex).RLock"] = func(fr *frame, args []value) value {
 		m := syncSt.mutex(args[0].(*value))
+		if EX.TraceSync {
+			EX.recordSync(m, "R")
+			return nil
+		}
 		g := curG(fr)
 		if !(m.locked || m.writersWaiting > 0) {
 			sched.yield(g, "RWMutex.RLock", commuting{m})
@@ -137,6 +152,10 @@ func initSyncIntrinsics() {
 	}
 	e["(*sync.RWMutex).RUnlock"] = func(fr *frame, args []value) value {
 		m := syncSt.mutex(args[0].(*value))
+		if EX.TraceSync {
+			EX.recordSync(m, "V")
+			return nil
+		}
 		sched.yield(curG(fr), "RWMutex.RUnlock", commuting{m})
 		if m.readers <= 0 {
 			panic(targetPanicMsg("fatal error: sync: RUnlock of unlocked RWMutex"))
@@ -224,11 +243,16 @@ func initSyncIntrinsics() {
 			syncSt.pool[p] = ps
 		}
 		stub("sync.Pool (model: Get returns any pooled item or New())")
+		// Get/Put are scheduling points on the pool: which items are pooled depends on their order
+		g := curG(fr)
+		sched.yield(g, "Pool.Get", p)
 		// decision: reuse one of the pooled items, or allocate
 		c := EX.Choose(len(ps.items)+1, "pool.Get")
 		if c < len(ps.items) {
 			it := ps.items[c]
 			ps.items = append(append([]value{}, ps.items[:c]...), ps.items[c+1:]...)
+			race.acquire(g, ps.toks[c])
+			ps.toks = append(append([]*int{}, ps.toks[:c]...), ps.toks[c+1:]...)
 			return it
 		}
 		st := (*p).(structure)
@@ -245,7 +269,12 @@ func initSyncIntrinsics() {
 			ps = &poolState{}
 			syncSt.pool[p] = ps
 		}
+		g := curG(fr)
+		sched.yield(g, "Pool.Put", p)
+		tok := new(int)
+		race.release(g, tok)
 		ps.items = append(ps.items, args[1])
+		ps.toks = append(ps.toks, tok)
 		return nil
 	}
 
